@@ -150,6 +150,30 @@ def run(ctx):
         msg = o_expr(t, w, decls)
         if msg:
             ctx.violation("additive chain %s: %s" % (t, msg), {"kind": "expr", "text": t, "want": w, "decls": decls})
+    # integer powers are integers, exactly: results between 2**53 and 2**63 have no binary64 representation
+    # (seeded C03/k: int ** int computed through floating point and cast back)
+    for _ in range(ctx.n(40, 400)):
+        b = ctx.rng.choice([3, 5, 6, 7, 9, 10, 11, 13, 15, 17, 21])
+        es = [e for e in range(2, 64) if 2 ** 53 < b ** e < 2 ** 63]
+        e = ctx.rng.choice(es)
+        d = ctx.rng.randrange(0, 9)
+        form = ctx.rng.randrange(5)
+        if form == 0:
+            t, w, decls = "%d**%d" % (b, e), b ** e, ""
+        elif form == 1:
+            t, w, decls = "%d**%d - %d" % (b, e, b ** e - d), d, ""
+        elif form == 2:
+            t, w, decls = "(-%d)**%d" % (b, e), (-b) ** e, ""
+        elif form == 3:
+            t, w, decls = "n**m - %d" % (b ** e - d), d, "int n = %d\nint m = %d\n" % (b, e)
+        else:
+            t, w, decls = "%d - %d**%d" % (b ** e + d, b, e), d, ""
+        ctx.case("intpow:" + t + decls)
+        ctx.count("integer-power-beyond-2**53")
+        msg = o_expr(t, w, decls)
+        if msg:
+            ctx.violation("integer power %s: %s" % (t, msg), {"kind": "expr", "text": t, "want": w, "decls": decls,
+                                                            "want_int": True})
     # index expressions between and after two declarations of one array, redeclared scalars (interaction stream;
     # the executable model is the oracle)
     common.interaction_stream(ctx, ctx.n(150, 2000))
